@@ -278,6 +278,7 @@ def connect_contract():
         d = {
             'sid-never-used-before': z3.Not(iss0.c['.'][r]),
             'sid-not-none': r != NONE,
+            'sid-is-a-string': smt.kind(r) == smt.K_STR,
             'member': member_rel(c.pre, c.post, added=lambda n, ro, s: z3.And(n == ns, s == r, z3.Or(ro == NONE, ro == r))),
             'transports-kept': vals_kept(c.pre, c.post),
             'owns': owns(c.post, e, ns, r),
